@@ -4,10 +4,10 @@
 EXTENDS TdmsSegments
 R == "/"
 G1 == "/'g1'"
-G2 == "/'g2'"
+G2 == "/'a'"        \* a group named like a channel: the paths of G1 and G2 run together read like the path of A
 A == "/'g1'/'a'"
 B == "/'g1'/'b'"
-C == "/'g2'/'a'"
+C == "/'a'/'a'"
 c_Paths == {R, G1, G2, A, B, C}
 c_Chans == {A, B, C}
 c_Groups == {G1, G2}
@@ -29,7 +29,7 @@ c_Forbidden == {}
 \* order x properties: which listed objects carry a property must not influence the order of first appearance
 c_ObjListsP == {<<A, B, C>>, <<C, B, A>>, <<R, G1, G2, A, B, C>>, <<C, A, G2, B>>, <<G2, G1, C, A>>, <<B, A, R>>,
                 <<G2, G1>>, <<B>>, <<G1, C>>}
-c_ObjListsPQ == {<<A, B, C>>, <<C, A, G2, B>>, <<G2, G1, C, A>>, <<B, A, R>>}
+c_ObjListsPQ == {<<A, B, C>>, <<C, A, G2, B>>, <<G2, G1, C, A>>, <<B, A, R>>, <<G1, G2>>, <<A>>}
 c_PropNamesP == {"p1"}
 c_PropValsP == {"v1"}
 c_NValsP == {1}
